@@ -1,14 +1,15 @@
 SPECIFICATION Spec
 CONSTANTS
-  Part = "sessions"
+  Part = "c15seq"
   MaxLinesA = 1
   MaxLinesB = 1
-  KF_FindUnitRelock = TRUE
+  KF_FindUnitRelock = FALSE
   MaxOps = 0
   ExportOps = 0
   VerifierRemembersTokens = FALSE
   RedactNeedsTLSRecord = FALSE
   KeyFamily = "cover"
-  DumpFile = ""
+  DumpFile = "c15seq.ndjson"
 INVARIANTS
-  NoDeadlock
+  NoEffectWithoutTokenSeq
+  ValidTokenAcceptedEveryTime
